@@ -2,21 +2,42 @@
 from props.c01 import _cfg
 
 TRUSTED = [
-    "SHA-224/256/384/512, HMAC, MGF1/KDF2, expand_message_xmd, AES, CBC and PKCS#7 are Lean definitions written from FIPS 180-4, RFC 2104, "
-    "PKCS#1/IEEE 1363, RFC 9380 and FIPS 197/SP 800-38A (no network: the reading of the standards is anchored on the fixed vectors of "
-    "/repo/test/test_md.c, FIPS 197 appendix C and python hashlib inside tools/)",
-    "modelled, not verified: the compression functions and the table-driven rijndaelEncrypt/rijndaelDecrypt are tied to the spec by "
-    "correspondence only; BLAKE2s (RFC 7693 definition in Spec/Blake2s.lean) is compared one-shot only",
+    "SHA-224/256/384/512, BLAKE2s (keyed and unkeyed), HMAC, MGF1/KDF2, expand_message_xmd, AES, CBC and PKCS#7 are Lean definitions written "
+    "from FIPS 180-4, RFC 7693, RFC 2104, PKCS#1/IEEE 1363, RFC 9380 and FIPS 197/SP 800-38A (no network: the reading of the standards is "
+    "anchored on the fixed vectors of /repo/test/test_md.c, FIPS 197 appendix C and python hashlib inside tools/)",
+    "class A (model mirrors the C control flow, proved = specification for all inputs, executed on every line): the Reset/Input/Result "
+    "code of sha224-256.c and sha384-512.c (one parametric model: block buffer, Message_Block_Index, length counter with the AddLength test "
+    "of the variant that is compiled, both padding cases, Computed/Corrupted exits), blake2s-ref.c init/init_key/update/final (buffer-fill "
+    "logic, t[0]/t[1] counter with carry, last-block flag, parameter checks), md_hmac, nist_kdf (md_kdf/md_mgf), md_xmd over all four SHA "
+    "streams, padEncrypt/padDecrypt/bc_aes_cbc_enc/bc_aes_cbc_dec, rijndaelKeySetupEnc and rijndaelEncrypt (word-level mirror over the "
+    "tables extracted from the C text: = FIPS 197 KeyExpansion / Cipher for every key and block), rijndaelDecrypt (= FIPS 197 par. 5.3.5 "
+    "equivalent inverse cipher = InvCipher, given a word array that holds the decryption round keys)",
+    "kernel-checked ties to the C text, regenerated on every run: the ten T-tables and rcon of rijndael-alg-fst.c (all 256 entries each "
+    "= the FIPS 197 S-box / inverse S-box / GF(2^8) products they are documented to be), K / H0 / IV / sigma constants of the three hash "
+    "files incl. both variants of sha384-512.c (= the constants of the standards' definitions), rotation amounts of the SIGMA/sigma/G "
+    "macros (python-side comparison)",
+    "class C (executable specification compared on the presented lines only): the round functions SHA224_256ProcessMessageBlock, "
+    "SHA384_512ProcessMessageBlock (compiled in its 32-bit-word emulation) and blake2s_compress - the models call the specification's "
+    "compress / F, whose constants are tied as above but whose statement-level correspondence to the C text is the per-line comparison; "
+    "rijndaelKeySetupDec (the reversal + InvMixColumns of the round keys is executed by the model on every decryption line and its per-word "
+    "facts are proved, the loop induction is not, so the decryption-side theorems over the table code carry the hypothesis that the word "
+    "array holds the par. 5.3.5 keys); makeKey2/cipherInit glue of rijndael-api-fst.c; the preset-state harness ops md_stream_len / b2s_ctr "
+    "write into library structs (counter located by a probe of the library itself)",
 ]
 ASSUMPTIONS = [
-    "message bit length below 2^64 (SHA-256 streaming theorem)",
-    "CBC round-trip theorem takes 'the block decryption inverts the block encryption' as a hypothesis",
+    "message bit length below 2^64 (SHA-224/256 streaming theorems) resp. below 2^96 (SHA-384/512: the first length at which the compiled "
+    "AddLength test fires, finding C14-ext-1; FIPS 180-4 allows 2^128); BLAKE2s: fewer than 2^64 - 64 bytes",
+    "md_map_* pass a size_t length to SHA*Input(unsigned int): messages of 4 GiB and more are outside the presented range",
+    "AES-CBC theorems: 16-byte IV, key of 16/24/32 bytes (other key sizes: rejection is modelled and compared)",
 ]
 # lean/RelicVerif/Gen/AesTables.lean (the ten lookup tables and rcon of src/bc/rijndael-alg-fst.c) and Gen/MdConsts.lean (K / H0 / IV / sigma
 # of the hash implementations) are regenerated from the C text on every run
 GENERATED = ["aes", "md"]
 RULE = ("all message lengths 0..300 (every residue mod 64 and mod 128), key lengths 0..200, output lengths 0..3*hLen+5 and the 255*hLen "
-        "boundary, AES key sizes 16/24/32 (+ invalid), plaintext lengths 0..80, every single-byte corruption of the last ciphertext block; "
+        "boundary, AES key sizes 16/24/32 (+ invalid), plaintext lengths 0..80, every single-byte corruption of the last ciphertext block, "
+        "controlled alterations of every part of the PKCS#7 padding; incremental APIs with structured chunkings (single, byte-wise, cuts "
+        "before/at/after block boundaries, empty chunks, chunks longer than two blocks, Result/final in between), BLAKE2s digest lengths "
+        "1..32 and key lengths 0..32 (+ invalid), preset counters at every value where a counter test can fire; "
         "non-trivial = distinct line with a non-error result")
 
 
